@@ -1,4 +1,8 @@
 import PoorModel.Multipart
+import PoorProofs.Lemmas.HeaderValue
+import PoorProofs.Lemmas.Query
+import PoorProofs.Props.C14
+import PoorProofs.Props.C18
 /-
 Lemmas for property C08: the in-memory line reader and the content loop of one part.
 -/
@@ -296,7 +300,7 @@ theorem at_boundary (nb mark eol tail c : Bytes) (hb : BOk nb)
     simp
 
 
-theorem getLast?_append_ne_nil (a b : Bytes) (hb : b ≠ []) : (a ++ b).getLast? = b.getLast? := by
+theorem getLast?_append_ne_nil {α : Type} (a b : List α) (hb : b ≠ []) : (a ++ b).getLast? = b.getLast? := by
   rw [List.getLast?_append]
   cases h : b.getLast? with
   | none => exact absurd (List.getLast?_eq_none_iff.1 h) hb
@@ -459,6 +463,519 @@ theorem extract_aux (nb mark eol tail c : Bytes) (hb : BOk nb) (hno : ¬ nb <:+:
         rw [h1, getLast?_append_ne_nil _ _ hl1ne]
         exact h2
       · exact stripEnd_delim l1
+
+
+/-! ### header blocks -/
+
+open Poor.Headers (utf8enc utf8dec)
+
+theorem lfLine_none_line (a rest : Bytes) (ha : LF ∉ a) :
+    lfReader.line none (a ++ LF :: rest) = (a ++ [LF], rest) := by
+  show lfLine none (a ++ LF :: rest) = _
+  unfold lfLine
+  simp only [Option.getD_none]
+  rw [lfTake_line _ a rest ha (by simp)]
+  simp
+
+theorem all_of_dropWhile_nil (p : α → Bool) (l : List α) (h : l.dropWhile p = []) : ∀ x ∈ l, p x = true := by
+  induction l with
+  | nil => simp
+  | cons a t ih =>
+    simp only [List.dropWhile_cons] at h
+    split at h
+    · rename_i ha
+      intro x hx
+      rcases List.mem_cons.1 hx with rfl | hx
+      · exact ha
+      · exact ih h x hx
+    · cases h
+
+theorem strip_ne_nil (l : Bytes) (h : ∃ b ∈ l, isWs b = false) : strip l ≠ [] := by
+  obtain ⟨b, hb, hw⟩ := h
+  unfold strip rstrip
+  intro he
+  have h1 : (List.dropWhile isWs l).reverse.dropWhile isWs = [] := by
+    have := congrArg List.reverse he; simpa using this
+  have h1' := all_of_dropWhile_nil _ _ h1
+  have h2 : ∀ x ∈ l.dropWhile isWs, isWs x = true := fun x hx => h1' x (by simpa using hx)
+  -- the first non-blank byte survives dropWhile
+  have : b ∈ l.dropWhile isWs := by
+    clear h1 he h2 h1'
+    induction l with
+    | nil => simp at hb
+    | cons x xs ih =>
+      simp only [List.dropWhile_cons]
+      split
+      · rename_i hx
+        rcases List.mem_cons.1 hb with rfl | hb'
+        · rw [hw] at hx; cases hx
+        · exact ih hb'
+      · exact hb
+  have := h2 b this
+  rw [hw] at this; cases this
+
+theorem strip_crlf : strip [CR, LF] = [] := by decide
+
+/-- the header block of a part: every line is read whole, the blank line ends the block -/
+theorem headerLines_block (ts : List Bytes) (rest : Bytes) (fuel : Nat)
+    (h : ∀ t ∈ ts, LF ∉ t ∧ ∃ b ∈ t, isWs b = false) (hfuel : ts.length < fuel) :
+    headerLines lfReader fuel (ts.flatMap (· ++ [CR, LF]) ++ ([CR, LF] ++ rest))
+      = (ts.map (· ++ [CR, LF]) ++ [[CR, LF]], rest) := by
+  induction ts generalizing fuel with
+  | nil =>
+    obtain ⟨f, rfl⟩ : ∃ f, fuel = f + 1 := ⟨fuel - 1, by simp at hfuel; omega⟩
+    have hrd : lfReader.line none ([CR] ++ LF :: rest) = ([CR] ++ [LF], rest) :=
+      lfLine_none_line [CR] rest (by decide)
+    simp only [List.flatMap_nil, List.nil_append, List.map_nil]
+    have e : ([CR, LF] ++ rest) = [CR] ++ LF :: rest := by simp
+    rw [e]
+    simp only [headerLines, hrd]
+    simp [strip_crlf]
+  | cons t ts ih =>
+    obtain ⟨f, rfl⟩ : ∃ f, fuel = f + 1 := ⟨fuel - 1, by simp at hfuel; omega⟩
+    obtain ⟨htlf, htws⟩ := h t (by simp)
+    have hlf : LF ∉ t ++ [CR] := by
+      intro hm; rcases List.mem_append.1 hm with hm | hm
+      · exact htlf hm
+      · simp [CR, LF] at hm
+    have e : (t :: ts).flatMap (· ++ [CR, LF]) ++ ([CR, LF] ++ rest)
+        = (t ++ [CR]) ++ LF :: (ts.flatMap (· ++ [CR, LF]) ++ ([CR, LF] ++ rest)) := by simp
+    rw [e]
+    have hrd := lfLine_none_line (t ++ [CR]) (ts.flatMap (· ++ [CR, LF]) ++ ([CR, LF] ++ rest)) hlf
+    have hne : t ++ [CR] ++ [LF] ≠ [] := by simp
+    obtain ⟨y, ys, hys⟩ : ∃ y ys, t ++ [CR] ++ [LF] = y :: ys := by
+      cases hc : t ++ [CR] ++ [LF] with
+      | nil => exact absurd hc hne
+      | cons y ys => exact ⟨y, ys, rfl⟩
+    rw [hys] at hrd
+    simp only [headerLines, hrd]
+    have hstrip : (strip (y :: ys)).isEmpty = false := by
+      rw [← hys]
+      have : strip (t ++ [CR] ++ [LF]) ≠ [] := strip_ne_nil _ (by
+        obtain ⟨b, hb, hw⟩ := htws
+        exact ⟨b, by simp [hb], hw⟩)
+      cases hs : strip (t ++ [CR] ++ [LF]) with
+      | nil => exact absurd hs this
+      | cons _ _ => rfl
+    simp only [hstrip, Bool.false_eq_true, if_false]
+    rw [ih f (fun x hx => h x (by simp [hx])) (by simp at hfuel; omega)]
+    simp [← hys]
+
+
+theorem utf8enc_append (a b : Str) : utf8enc (a ++ b) = utf8enc a ++ utf8enc b := by
+  simp [utf8enc]
+
+theorem utf8enc_crlf : utf8enc ['\r', '\n'] = [CR, LF] := by decide
+
+/-- stripping a line that ends in CRLF and whose text begins and ends with a non-blank character -/
+theorem strip_text_crlf (t : Str) (c : Char) (r : Str) (ht : t = c :: r) (hc : HeaderValue.isSpace c = false)
+    (d : Char) (hl : t.getLast? = some d) (hd : HeaderValue.isSpace d = false) :
+    HeaderValue.strip (t ++ ['\r', '\n']) = t := by
+  unfold HeaderValue.strip
+  subst ht
+  rw [List.cons_append, HeaderValue.dropWhile_head_false hc]
+  have hrev : ((c :: r) ++ ['\r', '\n']).reverse = '\n' :: '\r' :: (c :: r).reverse := by simp
+  rw [← List.cons_append, hrev]
+  have h1 : HeaderValue.isSpace '\n' = true := by decide
+  have h2 : HeaderValue.isSpace '\r' = true := by decide
+  simp only [List.dropWhile_cons, h1, h2, if_true]
+  have hh : (c :: r).reverse.head? = some d := by rw [List.head?_reverse]; exact hl
+  cases hr : (c :: r).reverse with
+  | nil => simp at hr
+  | cons x xs =>
+    rw [hr] at hh
+    simp only [List.head?_cons, Option.some.injEq] at hh
+    subst hh
+    rw [HeaderValue.dropWhile_head_false hd, ← hr, List.reverse_reverse]
+
+/-- a header line `Name: value CRLF` as an RFC 7578 encoder writes it -/
+theorem parseHeaderLine_render (name value : Str) (c0 : Char) (r0 : Str) (hn : name = c0 :: r0)
+    (hname : ∀ c ∈ name, c ≠ ':' ∧ 33 ≤ c.toNat ∧ c.toNat ≤ 126)
+    (v0 : Char) (vr : Str) (hv : value = v0 :: vr) (hv0 : HeaderValue.isSpace v0 = false)
+    (vl : Char) (hvl : value.getLast? = some vl) (hvl' : HeaderValue.isSpace vl = false)
+    (hnl : '\n' ∉ value ∧ '\r' ∉ value)
+    (hb : CR ∉ utf8enc (name ++ ": ".toList ++ value) ∧ LF ∉ utf8enc (name ++ ": ".toList ++ value)) :
+    parseHeaderLine (utf8enc (name ++ ": ".toList ++ value) ++ [CR, LF])
+      = some (some (lowerAsciiB name, value)) := by
+  obtain ⟨t, ht⟩ : ∃ t, t = name ++ ": ".toList ++ value := ⟨_, rfl⟩
+  rw [← ht] at hb ⊢
+  unfold parseHeaderLine
+  rw [stripEnd_crlf]
+  have hcr : (utf8enc t).contains CR = false := by simpa using hb.1
+  have hlf : (utf8enc t).contains LF = false := by simpa using hb.2
+  simp only [hcr, hlf, Bool.or_self, Bool.false_eq_true, if_false]
+  have hdec : utf8dec (utf8enc t ++ [CR, LF]) = some (t ++ ['\r', '\n']) := by
+    rw [← utf8enc_crlf, ← utf8enc_append]; exact Poor.Props.C14.utf8dec_utf8enc _
+  rw [hdec]
+  simp only
+  have hsp : ∀ c ∈ name, HeaderValue.isSpace c = false := by
+    intro c hc
+    obtain ⟨_, h1, h2⟩ := hname c hc
+    simp [HeaderValue.isSpace]; omega
+  have htcons : t = c0 :: (r0 ++ ": ".toList ++ value) := by rw [ht, hn]; simp
+  have htlast : t.getLast? = some vl := by
+    rw [ht, getLast?_append_ne_nil (name ++ ": ".toList) value (by rw [hv]; simp)]; exact hvl
+  rw [strip_text_crlf t c0 _ htcons (hsp c0 (by rw [hn]; simp)) vl htlast hvl']
+  have hne : t.isEmpty = false := by rw [htcons]; rfl
+  have hcolon : t.contains ':' = true := by rw [ht]; simp
+  have hnonl : t.contains '\n' = false ∧ t.contains '\r' = false := by
+    have hn1 : '\n' ∉ name := fun h => by have := (hname _ h).2.1; simp at this
+    have hn2 : '\r' ∉ name := fun h => by have := (hname _ h).2.1; simp at this
+    rw [ht]
+    constructor
+    · simp only [List.contains_eq_mem, List.mem_append, decide_eq_false_iff_not]
+      rintro ((h | h) | h)
+      · exact hn1 h
+      · simp at h
+      · exact hnl.1 h
+    · simp only [List.contains_eq_mem, List.mem_append, decide_eq_false_iff_not]
+      rintro ((h | h) | h)
+      · exact hn2 h
+      · simp at h
+      · exact hnl.2 h
+  simp only [hne, hcolon, hnonl.1, hnonl.2, Bool.not_true, Bool.or_self, Bool.false_eq_true, if_false]
+  have htake : t.takeWhile (· != ':') = name ∧ t.dropWhile (· != ':') = ':' :: ' ' :: value := by
+    rw [ht]
+    have : ∀ (n : Str), (∀ c ∈ n, c ≠ ':') →
+        (n ++ ": ".toList ++ value).takeWhile (· != ':') = n ∧
+        (n ++ ": ".toList ++ value).dropWhile (· != ':') = ':' :: ' ' :: value := by
+      intro n hnn
+      induction n with
+      | nil => simp [List.takeWhile, List.dropWhile]
+      | cons x xs ih =>
+        have hx : (x != ':') = true := by simpa using hnn x (by simp)
+        have := ih (fun c hc => hnn c (by simp [hc]))
+        simp only [String.toList, List.append_assoc, List.cons_append, List.nil_append] at this ⊢
+        simp [List.takeWhile, List.dropWhile, hx, this]
+    exact this name (fun c hc => (hname c hc).1)
+  rw [htake.1, htake.2]
+  have hall : name.all (fun c => decide (33 ≤ c.toNat) && decide (c.toNat ≤ 126)) = true := by
+    rw [List.all_eq_true]; intro c hc
+    have := hname c hc; simp [this.2.1, this.2.2]
+  simp only [hall, Bool.not_true, Bool.false_eq_true, if_false, List.drop_succ_cons, List.drop_zero]
+  rw [HeaderValue.strip_space_cons, HeaderValue.strip_id value v0 vr hv hv0 vl hvl hvl']
+
+
+/-! ### whole bodies: the encoder of the specification and the parser on it -/
+
+/-- a form part as an RFC 7578 encoder sees it -/
+structure EPart where
+  name : Str
+  filename : Option Str
+  ctype : Option Str
+  content : Bytes
+
+def dispParams (p : EPart) : List (Str × Str) :=
+  ("name".toList, p.name) :: (match p.filename with | some f => [("filename".toList, f)] | none => [])
+
+/-- `form-data; name="..."; filename="..."` with backslash and quote escaped -/
+def dispValue (p : EPart) : Str := HeaderValue.renderHeader (some "form-data".toList) (dispParams p)
+
+def hdrTexts (p : EPart) : List Str :=
+  ("Content-Disposition".toList ++ ": ".toList ++ dispValue p) ::
+    (match p.ctype with | some t => ["Content-Type".toList ++ ": ".toList ++ t] | none => [])
+
+def headerBytes (p : EPart) : Bytes :=
+  ((hdrTexts p).map utf8enc).flatMap (· ++ [CR, LF])
+
+/-- everything after the first delimiter line -/
+def encBody (ib final : Bytes) : List EPart → Bytes
+  | [] => []
+  | [p] => headerBytes p ++ ([CR, LF] ++ (p.content ++ [CR, LF] ++ (DASH :: DASH :: ib ++ [DASH, DASH] ++ final ++ [])))
+  | p :: q :: ps =>
+    headerBytes p ++ ([CR, LF] ++ (p.content ++ [CR, LF] ++ (DASH :: DASH :: ib ++ [] ++ [CR, LF] ++ encBody ib final (q :: ps))))
+
+/-- the body an encoder sends for the part list -/
+def encode (ib final : Bytes) (ps : List EPart) : Bytes := DASH :: DASH :: ib ++ [CR, LF] ++ encBody ib final ps
+
+/-- what the parser must hand over for it -/
+def expected (p : EPart) : Part :=
+  ⟨some p.name, p.filename, p.ctype.getD "text/plain".toList, p.content,
+   match p.filename with | some f => !f.isEmpty | none => false⟩
+
+/-- admissible parts: content free of the delimiter, header lines without CR/LF, a plain media type -/
+structure PartOK (ib : Bytes) (p : EPart) : Prop where
+  content : ¬ (DASH :: DASH :: ib) <:+: p.content
+  bytes : ∀ t ∈ hdrTexts p, CR ∉ utf8enc t ∧ LF ∉ utf8enc t
+  chars : '\n' ∉ dispValue p ∧ '\r' ∉ dispValue p
+  ctype : ∀ t, p.ctype = some t → Poor.Props.C18.MainOK t ∧ '\n' ∉ t ∧ '\r' ∉ t ∧
+            t.take 10 ≠ "multipart/".toList ∧ t ≠ "application/x-www-form-urlencoded".toList
+
+theorem keyOK_name : Poor.Props.C18.KeyOK "name".toList := by
+  refine ⟨by decide, by decide⟩
+
+theorem keyOK_filename : Poor.Props.C18.KeyOK "filename".toList := by
+  refine ⟨by decide, by decide⟩
+
+theorem mainOK_formdata : Poor.Props.C18.MainOK "form-data".toList := by
+  refine ⟨by decide, by decide⟩
+
+/-- the Content-Disposition value parses back to the name and file name -/
+theorem parse_disp (p : EPart) : HeaderValue.parseHeader (dispValue p) = ("form-data".toList, dispParams p) := by
+  unfold dispValue
+  apply Poor.Props.C18.C18_params _ _ mainOK_formdata
+  · intro kv hkv
+    unfold dispParams at hkv
+    cases hf : p.filename with
+    | none => simp [hf] at hkv; subst hkv; exact keyOK_name
+    | some f =>
+      simp [hf] at hkv
+      rcases hkv with rfl | rfl
+      · exact keyOK_name
+      · exact keyOK_filename
+  · unfold dispParams
+    cases p.filename <;> simp <;> decide
+
+theorem parse_ctype (t : Str) (h : Poor.Props.C18.MainOK t) : HeaderValue.parseHeader t = (t, []) := by
+  have := Poor.Props.C18.C18_params t [] h (by simp) (by simp)
+  simpa [HeaderValue.renderHeader] using this
+
+
+theorem first_byte_nonws (t : Str) (c : Char) (r : Str) (ht : t = c :: r) (hc : Query.isAscii c = true)
+    (hw : isWs (Query.byteOf c) = false) : ∃ b ∈ utf8enc t, isWs b = false := by
+  refine ⟨Query.byteOf c, ?_, hw⟩
+  rw [ht, Query.utf8enc_cons, Query.utf8enc_ascii_char c hc]
+  simp
+
+theorem parseHeaderLine_blank : parseHeaderLine [CR, LF] = some none := by
+  unfold parseHeaderLine
+  have h0 : stripEnd [CR, LF] = ([], [CR, LF], true) := by simpa using stripEnd_crlf []
+  rw [h0]
+  have hdec : utf8dec [CR, LF] = some ['\r', '\n'] := by
+    rw [← utf8enc_crlf]; exact Poor.Props.C14.utf8dec_utf8enc _
+  simp only [hdec]
+  have : HeaderValue.strip ['\r', '\n'] = [] := by decide
+  simp [this]
+
+/-- the two header lines of a part, parsed -/
+theorem parse_disp_line (p : EPart) (ib : Bytes) (hp : PartOK ib p) :
+    parseHeaderLine (utf8enc ("Content-Disposition".toList ++ ": ".toList ++ dispValue p) ++ [CR, LF])
+      = some (some ("content-disposition".toList, dispValue p)) := by
+  have hform : dispValue p = "form-data".toList ++ Poor.Props.C18.tail (dispParams p) :=
+    Poor.Props.C18.renderHeader_eq _ _
+  have hv : ∃ vr, dispValue p = 'f' :: vr := by
+    rw [hform]; exact ⟨_, rfl⟩
+  obtain ⟨vr, hvr⟩ := hv
+  have hlast : (dispValue p).getLast? = some '"' := by
+    rw [hform]
+    have hq : ∀ k v : Str, (HeaderValue.renderParam k v).getLast? = some '"' := by
+      intro k v
+      unfold HeaderValue.renderParam
+      rw [getLast?_append_ne_nil _ _ (by decide)]
+      rfl
+    have ht : ∀ k v : Str, (';' :: ' ' :: HeaderValue.renderParam k v).getLast? = some '"' := by
+      intro k v
+      have hne : HeaderValue.renderParam k v ≠ [] := by
+        intro h; have := hq k v; rw [h] at this; cases this
+      rw [show (';' :: ' ' :: HeaderValue.renderParam k v) = [';', ' '] ++ HeaderValue.renderParam k v by rfl,
+        getLast?_append_ne_nil _ _ hne]
+      exact hq k v
+    unfold dispParams Poor.Props.C18.tail
+    cases p.filename with
+    | none =>
+      simp only [List.flatMap_cons, List.flatMap_nil, List.append_nil]
+      rw [getLast?_append_ne_nil _ _ (by simp)]
+      exact ht _ _
+    | some f =>
+      simp only [List.flatMap_cons, List.flatMap_nil, List.append_nil]
+      rw [← List.append_assoc, getLast?_append_ne_nil _ _ (by simp)]
+      exact ht _ _
+  have := parseHeaderLine_render "Content-Disposition".toList (dispValue p) 'C' "ontent-Disposition".toList (by decide)
+    (by decide) 'f' vr hvr (by decide) '"' hlast (by decide) hp.chars
+    (hp.bytes _ (by simp [hdrTexts]))
+  rw [this]
+  have : lowerAsciiB "Content-Disposition".toList = "content-disposition".toList := by decide
+  rw [this]
+
+
+theorem parse_ctype_line (p : EPart) (ib : Bytes) (hp : PartOK ib p) (t : Str) (ht : p.ctype = some t) :
+    parseHeaderLine (utf8enc ("Content-Type".toList ++ ": ".toList ++ t) ++ [CR, LF])
+      = some (some ("content-type".toList, t)) := by
+  obtain ⟨hm, hn1, hn2, _, _⟩ := hp.ctype t ht
+  obtain ⟨c, r, hcr⟩ : ∃ c r, t = c :: r := by
+    cases hc : t with
+    | nil => exact absurd hc hm.1
+    | cons c r => exact ⟨c, r, rfl⟩
+  have hlast : t.getLast? = some (t.getLast hm.1) := List.getLast?_eq_some_getLast hm.1
+  have := parseHeaderLine_render "Content-Type".toList t 'C' "ontent-Type".toList (by decide)
+    (by decide) c r hcr ((hm.2 c (by rw [hcr]; simp)).2.2) (t.getLast hm.1) hlast
+    ((hm.2 _ (List.getLast_mem hm.1)).2.2) ⟨hn1, hn2⟩
+    (hp.bytes _ (by simp [hdrTexts, ht]))
+  rw [this]
+  have : lowerAsciiB "Content-Type".toList = "content-type".toList := by decide
+  rw [this]
+
+/-- the header block of a part, parsed: the (name, value) pairs `readParts` works with -/
+def hdrPairs (p : EPart) : List (Str × Str) :=
+  ("content-disposition".toList, dispValue p) ::
+    (match p.ctype with | some t => [("content-type".toList, t)] | none => [])
+
+theorem header_block (ib : Bytes) (p : EPart) (hp : PartOK ib p) (rest : Bytes) (fuel : Nat) (hfuel : 2 < fuel) :
+    ∃ lines, headerLines lfReader fuel (headerBytes p ++ ([CR, LF] ++ rest)) = (lines, rest) ∧
+      lines.isEmpty = false ∧
+      lines.mapM parseHeaderLine = some ((hdrPairs p).map some ++ [none]) := by
+  have hblock := headerLines_block ((hdrTexts p).map utf8enc) rest fuel (by
+    intro t ht
+    obtain ⟨x, hx, rfl⟩ := List.mem_map.1 ht
+    refine ⟨(hp.bytes x hx).2, ?_⟩
+    have hC : ∃ r, x = 'C' :: r := by
+      unfold hdrTexts at hx
+      rcases List.mem_cons.1 hx with rfl | hx
+      · exact ⟨_, rfl⟩
+      · cases hct : p.ctype with
+        | none => simp [hct] at hx
+        | some t => simp [hct] at hx; subst hx; exact ⟨_, rfl⟩
+    obtain ⟨r, hr⟩ := hC
+    exact first_byte_nonws x 'C' r hr (by decide) (by decide)) (by
+    unfold hdrTexts; cases p.ctype <;> simp <;> omega)
+  refine ⟨_, hblock, by simp, ?_⟩
+  unfold hdrTexts hdrPairs
+  cases hct : p.ctype with
+  | none =>
+    simp only [List.map_cons, List.map_nil, List.cons_append, List.nil_append, List.mapM_cons, List.mapM_nil]
+    rw [parse_disp_line p ib hp, parseHeaderLine_blank]
+    rfl
+  | some t =>
+    simp only [List.map_cons, List.map_nil, List.cons_append, List.nil_append, List.mapM_cons, List.mapM_nil]
+    rw [parse_disp_line p ib hp, parse_ctype_line p ib hp t hct, parseHeaderLine_blank]
+    rfl
+
+
+theorem filterMap_pairs (l : List (Str × Str)) : (l.map some ++ [none]).filterMap id = l := by
+  induction l with
+  | nil => rfl
+  | cons a t ih => simpa using ih
+
+theorem partParams_pairs (p : EPart) : partParams (hdrPairs p) = dispParams p := by
+  unfold partParams headerGet hdrPairs
+  simp [List.find?, parse_disp]
+
+theorem partCtype_pairs (ib : Bytes) (p : EPart) (hp : PartOK ib p) :
+    partCtype (hdrPairs p) = p.ctype.getD "text/plain".toList := by
+  unfold partCtype headerGet hdrPairs
+  have : ("content-disposition".toList == "content-type".toList) = false := by decide
+  cases hc : p.ctype with
+  | none => simp [List.find?, this]
+  | some t => simp [List.find?, this, parse_ctype t (hp.ctype t hc).1]
+
+/-- one turn of the `read_multi` loop on an encoded part -/
+theorem readParts_step (ib : Bytes) (hb : BOk (DASH :: DASH :: ib)) (p : EPart) (hp : PartOK ib p)
+    (mark eol tail : Bytes) (hmark : mark = [] ∨ mark = [DASH, DASH])
+    (heol : eol = [CR, LF] ∨ (eol = [] ∧ tail = [])) (fuel : Nat) (hfuel : p.content.length + 2 < fuel) :
+    readParts lfReader ib (fuel + 1)
+        (headerBytes p ++ ([CR, LF] ++ (p.content ++ [CR, LF] ++ (DASH :: DASH :: ib ++ mark ++ eol ++ tail))))
+      = (if mark = [] then
+          (match readParts lfReader ib fuel tail with
+           | .ok ps => .ok (expected p :: ps)
+           | e => e)
+         else .ok [expected p]) := by
+  obtain ⟨lines, hl1, hl2, hl3⟩ := header_block ib p hp
+    (p.content ++ [CR, LF] ++ (DASH :: DASH :: ib ++ mark ++ eol ++ tail)) fuel (by omega)
+  have hbody := Poor.Multipart.extract_aux (DASH :: DASH :: ib) mark eol tail p.content hb hp.content hmark heol
+    (p.content.length + 2) ⟨[], [], true⟩ [] (p.content ++ [CR, LF]) fuel (by simp) hfuel (by simp) (by simp)
+    (by intro h; simp at h) (by simp) (Or.inr (Or.inr (Or.inr rfl)))
+  have hnb : DASH :: DASH :: ib ++ [DASH, DASH] = (DASH :: DASH :: ib) ++ [DASH, DASH] := rfl
+  have hmp : ¬ (p.ctype.getD "text/plain".toList).take 10 = "multipart/".toList := by
+    cases hc : p.ctype with
+    | none => decide
+    | some t => simpa using (hp.ctype t hc).2.2.2.1
+  have hue : ¬ p.ctype.getD "text/plain".toList = "application/x-www-form-urlencoded".toList := by
+    cases hc : p.ctype with
+    | none => decide
+    | some t => simpa using (hp.ctype t hc).2.2.2.2
+  have hname : dictGet (dispParams p) "name" = some p.name := by
+    unfold dictGet dispParams; simp [List.find?]
+  have hfile : dictGet (dispParams p) "filename" = p.filename := by
+    unfold dictGet dispParams
+    have : ("name".toList == "filename".toList) = false := by decide
+    cases p.filename <;> simp [List.find?, this]
+  simp only [readParts, hl1, hl2, hl3, Bool.false_eq_true, if_false, filterMap_pairs, partParams_pairs,
+    partCtype_pairs ib p hp, hmp, hue, hname, hfile, hnb, hbody]
+  rcases hmark with rfl | rfl
+  · simp only [if_true]
+    cases readParts lfReader ib fuel tail <;> rfl
+  · have : ([DASH, DASH] : Bytes) ≠ [] := by decide
+    simp only [this, if_false]
+    rfl
+
+
+/-- the whole `read_multi` loop on the encoded parts -/
+theorem readParts_body (ib final : Bytes) (hb : BOk (DASH :: DASH :: ib)) (hfinal : final = [CR, LF] ∨ final = []) :
+    ∀ (ps : List EPart), ps ≠ [] → (∀ p ∈ ps, PartOK ib p) →
+      ∀ fuel, (∀ p ∈ ps, p.content.length + 2 + ps.length < fuel) →
+      readParts lfReader ib fuel (encBody ib final ps) = .ok (ps.map expected) := by
+  intro ps
+  induction ps with
+  | nil => intro h; exact absurd rfl h
+  | cons p rest ih =>
+    intro _ hok fuel hfuel
+    obtain ⟨f, rfl⟩ : ∃ f, fuel = f + 1 := ⟨fuel - 1, by have := hfuel p (by simp); omega⟩
+    cases rest with
+    | nil =>
+      have hf : p.content.length + 2 < f := by have := hfuel p (by simp); simp at this; omega
+      have heol : final = [CR, LF] ∨ (final = [] ∧ ([] : Bytes) = []) := by
+        rcases hfinal with h | h
+        · exact Or.inl h
+        · exact Or.inr ⟨h, rfl⟩
+      have := readParts_step ib hb p (hok p (by simp)) [DASH, DASH] final [] (Or.inr rfl) heol f hf
+      simp only [encBody]
+      rw [this]
+      have : ([DASH, DASH] : Bytes) ≠ [] := by decide
+      simp [this]
+    | cons q qs =>
+      have hf : p.content.length + 2 < f := by have := hfuel p (by simp); simp at this; omega
+      have := readParts_step ib hb p (hok p (by simp)) [] [CR, LF] (encBody ib final (q :: qs)) (Or.inl rfl)
+        (Or.inl rfl) f hf
+      simp only [encBody]
+      rw [this]
+      have hrec := ih (by simp) (fun x hx => hok x (by simp [hx])) f (by
+        intro x hx
+        have := hfuel x (by simp [hx])
+        simp only [List.length_cons] at this ⊢
+        omega)
+      simp only [if_true, hrec, List.map_cons]
+
+theorem rstrip_crlf (l : Bytes) (q : Bytes) (z : UInt8) (hl : l = q ++ [z]) (hz : isWs z = false) :
+    rstrip (l ++ [CR, LF]) = l := by
+  have e : l ++ [CR, LF] = (l ++ [CR]) ++ [LF] := by simp
+  rw [e, rstrip_append_ws _ LF (by decide), rstrip_append_ws _ CR (by decide), hl]
+  exact rstrip_self q z hz
+
+/-- **C08 for the in-memory reader, whole bodies.** -/
+theorem parse_encode (ib final : Bytes) (hb : BOk (DASH :: DASH :: ib)) (hvalid : validBoundary ib = true)
+    (hfinal : final = [CR, LF] ∨ final = []) (ps : List EPart) (hne : ps ≠ []) (hok : ∀ p ∈ ps, PartOK ib p)
+    (fuel : Nat) (hfuel : ∀ p ∈ ps, p.content.length + 3 + ps.length < fuel) :
+    parseMultipart lfReader ib fuel (encode ib final ps) = .ok (ps.map expected) := by
+  unfold parseMultipart
+  rw [hvalid]
+  simp only [Bool.not_true, Bool.false_eq_true, if_false]
+  obtain ⟨f, rfl⟩ : ∃ f, fuel = f + 1 := by
+    obtain ⟨p, hp⟩ := List.exists_mem_of_ne_nil ps hne
+    exact ⟨fuel - 1, by have := hfuel p hp; omega⟩
+  -- the first delimiter line
+  have hline : lfReader.line none (encode ib final ps) = (DASH :: DASH :: ib ++ [CR, LF], encBody ib final ps) := by
+    have e : encode ib final ps = (DASH :: DASH :: ib ++ [CR]) ++ LF :: encBody ib final ps := by
+      simp [encode]
+    rw [e, lfLine_none_line _ _ (by
+      intro h
+      rcases List.mem_append.1 h with h | h
+      · exact hb.nolf h
+      · simp [CR, LF] at h)]
+    simp
+  have hstrip : strip (DASH :: DASH :: ib ++ [CR, LF]) = DASH :: DASH :: ib := by
+    unfold strip
+    have hd : isWs DASH = false := by decide
+    simp only [List.cons_append, List.dropWhile_cons, hd, Bool.false_eq_true, if_false]
+    obtain ⟨q, z, hq, hz⟩ := hb.last
+    have := rstrip_crlf (DASH :: DASH :: ib) q z hq hz
+    simpa using this
+  have hskip : skipToBoundary lfReader ib (f + 1) (encode ib final ps) = encBody ib final ps := by
+    simp only [skipToBoundary, hline]
+    have hstrip' : strip (DASH :: DASH :: (ib ++ [CR, LF])) = DASH :: DASH :: ib := by simpa using hstrip
+    simp [hstrip']
+  rw [hskip]
+  exact readParts_body ib final hb hfinal ps hne hok (f + 1) (by
+    intro p hp; have := hfuel p hp; omega)
 
 
 end Poor.Multipart
